@@ -7,7 +7,7 @@ import ArcSwapModel.Tie.HybridDrop
 import ArcSwapModel.Tie.HybridFallback
 import ArcSwapModel.Tie.HybridAttempt
 import ArcSwapModel.Tie.DebtPayAll
-import ArcSwapModel.Inv.AcctFinal
+import ArcSwapModel.Inv.HoldFinal
 
 /-!
 # C02 — exact ownership accounting: no leak, no double release, tight reclamation
@@ -44,8 +44,9 @@ other than through a slot are the two ends of a hand-over, which move exactly th
 the owners' side (`C02_step_conserves`: every micro-step of every thread) and to whole executions
 (`C02_global_ledger`: along every execution all of whose steps satisfy `StepOK`, for every value,
 strong count + debt slots naming it = containers + handles + guards denoting it + units of the
-operations in flight; `C02_quiescent_counts`: with no operation in flight and every slot empty the
-strong count is exactly the number of owners).  The local well-formedness part of `StepOK` (slot
+operations in flight; `C02_quiescent_counts`: with no operation in flight and no slot naming the value the
+strong count is exactly the number of owners; `C02_at_rest_counts` proves the slots part too, from
+`C02_fast_slot_has_a_holder` and `C02_helping_slot_has_a_holder`: every occupied debt slot has a holder).  The local well-formedness part of `StepOK` (slot
 indices in range, the thread's node exists and is below `K`, nodes beyond `nNodes` untouched, a
 compare-and-swap's guard denotes `current`, guards in registers well-formed) is proved invariant
 (`Inv/AcctWf.lean`, `Inv/AcctNode.lean`, `Wf.step`), so that `C02_global_ledger_env` assumes only
@@ -195,9 +196,10 @@ theorem C02_global_ledger (K N T : Nat) (cfg : Cfg) (progs : Nat → List (Strin
 
 theorem C02_quiescent_counts {K N T : Nat} {st : State} (h : Ledger K N T st)
     (hidle : ∀ t, t < T → uOp (st.th t).op = fun _ => 0)
-    (hslots : ∀ n i, (st.sh.nodes n).fast i = .none ∧ (st.sh.nodes n).hslot = .none) (a : Nat) (ha : a ≠ 0) :
+    (a : Nat) (ha : a ≠ 0)
+    (hslots : ∀ n i, (st.sh.nodes n).fast i ≠ .ptr a ∧ (st.sh.nodes n).hslot ≠ .ptr a) :
     (st.sh.heap a).cnt = st.sh.regs N a :=
-  h.quiescent hidle hslots a ha
+  h.quiescent hidle a ha hslots
 
 /-- **the global sum**, assuming only `EnvOK` of every step: program discipline (registers are not
     raced on, `mk` creates fresh containers), the pool is not exhausted, `K` bounds the nodes ever
@@ -207,6 +209,35 @@ theorem C02_global_ledger_env (K N T : Nat) (hK : 0 < K) (cfg : Cfg) (progs : Na
     (sched : List (Nat × Bool)) (he : EnvRun K N T (State.initial cfg progs) sched) :
     Ledger K N T (run (State.initial cfg progs) sched) :=
   C02_ledger_env K N T hK cfg progs sched he
+
+/-- **every occupied fast slot has a holder** — a guard in a register whose debt is that slot, or an
+    operation in flight that carries such a guard or has published the debt and not yet confirmed
+    it — in the end state of every execution that keeps the register discipline and raises no
+    fault.  ("No borrow slot stays occupied after its guard is gone.") -/
+theorem C02_fast_slot_has_a_holder {K N T : Nat} (cfg : Cfg) (progs : Nat → List (String × Op))
+    (sched : List (Nat × Bool)) (he : EnvRun0 K N T (State.initial cfg progs) sched)
+    (hf : (run (State.initial cfg progs) sched).sh.fault = none) :
+    HoldInv (run (State.initial cfg progs) sched) :=
+  holdInv_of_env cfg progs sched he hf
+
+/-- **every occupied helping slot has a holder**: the owner's load between `confirm` and `pay` —
+    in every reachable state without a fault, no assumption on the program -/
+theorem C02_helping_slot_has_a_holder {st : State} (h : Reachable st) (hf : st.sh.fault = none) : HHoldInv st :=
+  HHoldInv.reachable h hf
+
+/-- **at rest**: every thread between operations, no register guard with a debt — then no debt slot
+    of any node names a value and every strong count is exactly the number of owners -/
+theorem C02_at_rest_counts (K N T : Nat) (hK : 0 < K) (cfg : Cfg) (progs : Nat → List (String × Op))
+    (sched : List (Nat × Bool)) (he : EnvRun0 K N T (State.initial cfg progs) sched)
+    (hf : (run (State.initial cfg progs) sched).sh.fault = none)
+    (hidle : ∀ t, ((run (State.initial cfg progs) sched).th t).op = .idle ∨
+      ((run (State.initial cfg progs) sched).th t).op = .finished)
+    (hg : ∀ g gd, (run (State.initial cfg progs) sched).sh.greg g = some gd → gd.debt = none) :
+    (∀ n i a, ((run (State.initial cfg progs) sched).sh.nodes n).fast i ≠ .ptr a ∧
+        ((run (State.initial cfg progs) sched).sh.nodes n).hslot ≠ .ptr a) ∧
+      ∀ a, a ≠ 0 → ((run (State.initial cfg progs) sched).sh.heap a).cnt =
+        (run (State.initial cfg progs) sched).sh.regs N a :=
+  C02_at_rest K N T hK cfg progs sched he hf hidle hg
 
 /-- non-vacuity: the local well-formedness assumed by the conservation theorems holds of concrete
     program counters on both read paths, of a walk in the middle of a node and of a
